@@ -38,6 +38,11 @@ def gen(rng, tier):
         t = rtree(rng, rng.choice([2, 3]))
         yield "sw all tlv %s" % hx(t)
         yield "sw all el %s" % hx(t)
+    # objects made and released on their own; a context of its own; a request with a configuration request handed to the async service
+    yield "sw all aar"
+    yield "sw all ctxn"
+    hc = bytes([1]) + rng.randbytes(32)
+    yield "sw all asyncc %s 0 %s 00" % (hx(hc), hx(b"anon"))
     for i in range(3 if not big else 24):
         s = S.build(rng, nchains=rng.choice([1, 2, 3]), with_cal=True, anchor=rng.choice(["pub", "auth", "none"]), with_rfc=(i % 3 == 2))
         raw = s.enc()
